@@ -46,6 +46,19 @@ class Node:
         return getattr(self.ast, "lineno", 0)
 
 
+def _format_hazard(st: ast.AST) -> bool:
+    """an f-string field with an integer-only presentation type (d, x, X, o, b, c, n) applied to something that is not an int literal"""
+    if isinstance(st, (ast.FunctionDef, ast.AsyncFunctionDef, ast.ClassDef)):
+        return False
+    for x in ast.walk(st):
+        if isinstance(x, ast.FormattedValue) and x.format_spec is not None and isinstance(x.format_spec, ast.JoinedStr):
+            spec = "".join(v.value for v in x.format_spec.values if isinstance(v, ast.Constant) and isinstance(v.value, str))
+            if spec and spec[-1] in "dxXobcn" and not (isinstance(x.value, ast.Constant) and isinstance(x.value.value, int)) \
+                    and not (isinstance(x.value, ast.Call) and isinstance(x.value.func, ast.Name) and x.value.func.id in ("int", "len", "round")):
+                return True
+    return False
+
+
 def _contains_yield(n: ast.AST) -> bool:
     if isinstance(n, (ast.Yield, ast.YieldFrom)):
         return True
@@ -207,6 +220,9 @@ class CFG:
         self.stmt_node[id(st)] = n
         n.is_yield = not isinstance(st, (ast.FunctionDef, ast.AsyncFunctionDef, ast.ClassDef)) and _contains_yield(st)
         self._attach(preds, n)
+        if not self._handlers and _format_hazard(st):
+            # f"{x:d}" raises for a value that is not an integer (a float allocation, say): the statement is an exit by exception
+            self._edge(n.id, self.raise_.id, "fmt")
         return [(n.id, None)]
 
     # -- helpers ----------------------------------------------------------------------------------
@@ -596,6 +612,8 @@ def _gen(n: "Node") -> FrozenSet:
             for x in v.args:
                 if isinstance(x, ast.Constant) and isinstance(x.value, (int, float)) and not isinstance(x.value, bool):
                     xt = repr(x.value)
+                elif norm._const(x) is not None:
+                    xt = norm.U(x)          # a signed literal such as -1
                 elif _is_term(x) and t not in _names_of_text(norm.U(x))[0]:
                     xt = norm.U(x)
                 else:
